@@ -298,6 +298,18 @@ def run(ctx):
                                       'levels are scaled against another pressure range than the requested ones and a file interpolated to its own levels changes'
                                       % (norm(st.value), norm(numr.left), norm(numr.right))), oid=q_)
     ctx.floor('sigma definitions judged by R-SIGMADEF', nsd, 2)
+    # ---- R-NOSHORTCUT: interpDimension always interpolates; "the coordinates look the same" within a tolerance is not the identity
+    ctx.rule('R-NOSHORTCUT', 'interpDimension has no early return that skips the interpolation when old and new coordinates are equal only within a tolerance')
+    idf0 = src.mod('core/_files.py').func('PseudoNetCDFFile.interpDimension')
+    wid0 = 'src/PseudoNetCDF/core/_files.py PseudoNetCDFFile.interpDimension'
+    short = [st for st in ast.walk(idf0) if isinstance(st, ast.If) and any(isinstance(c, ast.Call) and (dotted(c.func) or '').split('.')[-1] in ('allclose', 'isclose', 'array_equal', 'array_equiv')
+                                                                           for c in ast.walk(st.test)) and any(isinstance(x, ast.Return) for s2 in st.body for x in ast.walk(s2))]
+    tol = [st for st in short if any(isinstance(c, ast.Call) and (dotted(c.func) or '').split('.')[-1] in ('allclose', 'isclose') for c in ast.walk(st.test))]
+    if tol:
+        ctx.violation(Finding('R-NOSHORTCUT', 'core/_files.py', 'PseudoNetCDFFile.interpDimension', tol[0], 'the result is returned without interpolating when %s: the comparison has a relative tolerance, so large coordinate '
+                              'values (epoch seconds, pascals) that differ by less than about 1e-5 of their size count as equal and the data come back on the old coordinate' % norm(tol[0].test)[:70]))
+    else:
+        ctx.ok('R-NOSHORTCUT', 'interpDimension', wid0, 'no tolerance-based early return (%d exact-equality shortcuts)' % (len(short) - len(tol)))
     # ---- R-COORDSEL: interpDimension takes the old coordinate from the variable the caller named
     ctx.rule('R-COORDSEL', 'interpDimension: with coordkey given, the old coordinate is self.variables[coordkey] (the dimension-named variable only when coordkey is None)')
     fm_ = src.mod('core/_files.py')
